@@ -88,6 +88,13 @@ struct FnCfg {
 }
 
 struct R<'a> {
+    /// R15: spans of the blocks that are bodies of (generated or real) `for` loops
+    loop_bodies: BTreeSet<(usize, usize)>,
+    /// id reserved for the first loop of the pipeline being generated (ties result temporaries to their loop)
+    pending_loop: Option<usize>,
+    /// loop id -> signature (normalized source text of the iterated expression / loop condition)
+    loop_sigs: HashMap<usize, String>,
+    baseline_loops: Vec<String>,
     /// R13: bind the tail expression of the function body to `__ret` (hook for end-of-body proof)
     bind_tail: Option<(usize, usize)>,
     tail_bound: bool,
@@ -142,6 +149,7 @@ enum Sink<'c> {
     All(&'c ExprClosure),
     Position(&'c ExprClosure),
     Count,
+    First,
 }
 
 impl<'a> R<'a> {
@@ -200,6 +208,7 @@ impl<'a> R<'a> {
     fn closure_body_stmts(&mut self, c: &ExprClosure) -> String {
         match &*c.body {
             Expr::Block(b) if b.label.is_none() && b.attrs.is_empty() => {
+                self.loop_bodies.insert(rng(b.block.span()));
                 self.render_block_inner(&b.block)
             }
             e => {
@@ -316,16 +325,32 @@ impl<'a> R<'a> {
     fn gen_pipeline(&mut self, p: &Pipeline, sink: &Sink, rv: &str) -> String {
         let mut out = String::new();
         let needs_counter = p.stages.iter().any(|s| matches!(s, Stage::Enumerate));
-        let cnt = format!("__n{}", self.fresh());
+        let k0 = match self.pending_loop.take() {
+            Some(k) => k,
+            None => self.fresh(),
+        };
+        let cnt = format!("__n{}", k0);
         if needs_counter {
             out.push_str(&format!("let mut {}: usize = 0;\n", cnt));
         }
-        let pos_cnt = format!("__p{}", self.fresh());
+        let pos_cnt = format!("__p{}", k0);
         if let Sink::Position(_) = sink {
             out.push_str(&format!("let mut {}: usize = 0;\n", pos_cnt));
         }
-        for s in &p.sources {
-            let k = self.fresh();
+        for (si, s) in p.sources.iter().enumerate() {
+            let k = if si == 0 { k0 } else { self.fresh() };
+            let mut mcount = 0usize;
+            let sink_name = match sink {
+                Sink::ForEach(_) => "for_each",
+                Sink::Collect => "collect",
+                Sink::Any(_) => "any",
+                Sink::All(_) => "all",
+                Sink::Position(_) => "position",
+                Sink::Count => "count",
+                Sink::First => "next",
+            };
+            let sig = format!("{}:{}:{}", sink_name, p.stages.len(), norm(self.text(s.expr.span())));
+            self.loop_sigs.insert(k, sig);
             let it = format!("__it{}", k);
             let e = format!("__e{}", k);
             let src_text = self.render_expr(&s.expr);
@@ -353,7 +378,7 @@ impl<'a> R<'a> {
                     Stage::Map(c) => {
                         let pat = self.closure_single_pat(c);
                         let b = self.closure_body_expr(c);
-                        let nx = format!("__m{}", self.fresh());
+                        let nx = { mcount += 1; format!("__m{}x{}", k, mcount - 1) };
                         body.push_str(&format!("let {} = {};\nlet {} = {};\n", pat, cur, nx, b));
                         cur = nx;
                     }
@@ -369,7 +394,7 @@ impl<'a> R<'a> {
                     Stage::FilterMap(c) => {
                         let pat = self.closure_single_pat(c);
                         let b = self.closure_body_expr(c);
-                        let nx = format!("__m{}", self.fresh());
+                        let nx = { mcount += 1; format!("__m{}x{}", k, mcount - 1) };
                         body.push_str(&format!(
                             "let {} = {};\nif let Some({}) = {} {{\n",
                             pat, cur, nx, b
@@ -383,7 +408,7 @@ impl<'a> R<'a> {
                         }
                         let pat = self.closure_single_pat(c);
                         let b = self.closure_body_expr(c);
-                        let nx = format!("__m{}", self.fresh());
+                        let nx = { mcount += 1; format!("__m{}x{}", k, mcount - 1) };
                         body.push_str(&format!(
                             "let {} = {};\nlet {} = match {} {{ Some(__w) => __w, None => break }};\n",
                             pat, cur, nx, b
@@ -402,7 +427,7 @@ impl<'a> R<'a> {
                         ));
                     }
                     Stage::Enumerate => {
-                        let nx = format!("__m{}", self.fresh());
+                        let nx = { mcount += 1; format!("__m{}x{}", k, mcount - 1) };
                         body.push_str(&format!(
                             "let {} = ({}, {});\n{} += 1;\n",
                             nx, cnt, cur, cnt
@@ -445,6 +470,7 @@ impl<'a> R<'a> {
                     ));
                 }
                 Sink::Count => body.push_str(&format!("{} += 1;\n", rv)),
+                Sink::First => body.push_str(&format!("if {}.is_none() {{ {} = Some({}); }}\n", rv, rv, cur)),
             }
             for _ in 0..closers {
                 body.push_str("}\n");
@@ -508,7 +534,7 @@ impl<'a> R<'a> {
             ("collect", 0) => {
                 let p = self.parse_pipeline(&mc.receiver)?;
                 self.rule("R2b:pipeline-desugaring");
-                let rv = format!("__out{}", self.fresh());
+                let lid = self.fresh(); self.pending_loop = Some(lid); let rv = format!("__out{}", lid);
                 let body = self.gen_pipeline(&p, &Sink::Collect, &rv);
                 let ty = match &mc.turbofish {
                     Some(t) if t.args.len() == 1 => {
@@ -532,7 +558,7 @@ impl<'a> R<'a> {
                 let p = self.parse_pipeline(&mc.receiver)?;
                 let cl = closure_of(&mc.args[0])?;
                 self.rule("R3:consumer-desugaring");
-                let rv = format!("__r{}", self.fresh());
+                let lid = self.fresh(); self.pending_loop = Some(lid); let rv = format!("__r{}", lid);
                 let (init, sink) = match name.as_str() {
                     "any" => ("bool = false", Sink::Any(&cl)),
                     "all" => ("bool = true", Sink::All(&cl)),
@@ -546,6 +572,14 @@ impl<'a> R<'a> {
                     body = body
                 ))
             }
+            ("next", 0) => {
+                // first element of a pipeline (only meaningful on a fresh iterator expression)
+                let p = self.parse_pipeline(&mc.receiver)?;
+                self.rule("R3:consumer-desugaring");
+                let lid = self.fresh(); self.pending_loop = Some(lid); let rv = format!("__r{}", lid);
+                let body = self.gen_pipeline(&p, &Sink::First, &rv);
+                Some(format!("{{ let mut {rv} = None;\n{body}{rv} }}", rv = rv, body = body))
+            }
             ("count", 0) => {
                 let p = self.parse_pipeline(&mc.receiver)?;
                 self.rule("R3:consumer-desugaring");
@@ -555,7 +589,7 @@ impl<'a> R<'a> {
                         return Some(format!("({}).len()", s));
                     }
                 }
-                let rv = format!("__r{}", self.fresh());
+                let lid = self.fresh(); self.pending_loop = Some(lid); let rv = format!("__r{}", lid);
                 let body = self.gen_pipeline(&p, &Sink::Count, &rv);
                 Some(format!(
                     "{{ let mut {rv}: usize = 0;\n{body}{rv} }}",
@@ -715,9 +749,42 @@ impl<'r, 'a> V<'r, 'a> {
                 }
             }
         }
+        // R15: Verus' for-loops have no `continue`. In a loop body, `if C { ..; continue; } REST` (no else branch; also the
+        // `return;` of a for_each closure) becomes `if C { .. } else { REST }`.
+        let is_loop_body = self.r.loop_bodies.contains(&rng(b.span()));
+        let mut closers = 0usize;
         let mut truncated = false;
         for (i, st) in b.stmts.iter().enumerate() {
             let (a, e) = rng(st.span());
+            if is_loop_body && i + 1 < b.stmts.len() {
+                if let Stmt::Expr(Expr::If(ife), _) = st {
+                    if ife.else_branch.is_none() {
+                        let jumps = match ife.then_branch.stmts.last() {
+                            Some(Stmt::Expr(Expr::Continue(c), _)) => c.label.is_none(),
+                            Some(Stmt::Expr(Expr::Return(r), _)) => r.expr.is_none() && self.r.in_foreach > 0 && self.r.in_foreach != usize::MAX,
+                            _ => false,
+                        };
+                        if jumps {
+                            self.r.rule("R15:continue-elimination");
+                            let last = ife.then_branch.stmts.last().unwrap();
+                            let (ls, le) = rng(last.span());
+                            self.edits.push(Edit { start: a, end: a, text: format!("/*@S:{}@*/ ", norm(self.r.text(st.span()))) });
+                            // render the condition and the branch without its final jump
+                            self.visit_expr(&ife.cond);
+                            for st2 in ife.then_branch.stmts.iter().take(ife.then_branch.stmts.len() - 1) {
+                                let (a2, _) = rng(st2.span());
+                                self.edits.push(Edit { start: a2, end: a2, text: format!("/*@S:{}@*/ ", norm(self.r.text(st2.span()))) });
+                                self.visit_stmt(st2);
+                            }
+                            self.edits.push(Edit { start: ls, end: le, text: String::new() });
+                            let (_, ie) = rng(ife.span());
+                            self.edits.push(Edit { start: ie, end: e.max(ie), text: " else {".to_string() });
+                            closers += 1;
+                            continue;
+                        }
+                    }
+                }
+            }
             if truncated {
                 self.edits.push(Edit {
                     start: a,
@@ -813,6 +880,11 @@ impl<'r, 'a> V<'r, 'a> {
             }
             self.visit_stmt(st);
         }
+        if closers > 0 {
+            let (_, be) = rng(b.span());
+            // before the closing brace of the block
+            self.edits.push(Edit { start: be - 1, end: be - 1, text: "}".repeat(closers) });
+        }
     }
 }
 
@@ -887,29 +959,41 @@ impl<'r, 'a, 'ast> Visit<'ast> for V<'r, 'a> {
                 }
             }
             Expr::ForLoop(fl) => {
+                // a real `for` loop gets the same shape as a rewritten for_each: `for __e_k in __it_k: SRC { let PAT = __e_k; .. }`
                 let k = self.r.fresh();
                 let pat = self.r.render_pat(&fl.pat);
                 let ex = self.r.render_expr(&fl.expr);
-                if self.r.is_eager_call(strip_paren(&fl.expr)) {
-                    // bind the eagerly computed sequence so that invariants can name it
-                    let head = format!("for {} in __it{}: __s{}", pat, k, k);
-                    let t = self.r.loop_wrap(k, head, &fl.body);
-                    self.replace(e.span(), format!("{{ let __s{} = {};\n{} }}", k, ex, t));
+                // same signature as the `X.for_each(..)` form of the loop, so that for <-> for_each keeps its ordinal
+                let sig = format!("for_each:0:{}", norm(self.r.text(fl.expr.span())));
+                self.r.loop_sigs.insert(k, sig);
+                let save = self.r.in_foreach;
+                self.r.in_foreach = if save > 0 { usize::MAX } else { 0 };
+                self.r.loop_bodies.insert(rng(fl.body.span()));
+                let inner = self.r.render_block_inner(&fl.body);
+                self.r.in_foreach = save;
+                let (pre, src) = if self.r.is_eager_call(strip_paren(&fl.expr)) {
+                    (format!("let __s{} = {};\n", k, ex), format!("__s{}", k))
                 } else {
-                    let head = format!("for {} in __it{}: {}", pat, k, ex);
-                    let t = self.r.loop_wrap(k, head, &fl.body);
-                    self.replace(e.span(), t);
-                }
+                    (String::new(), ex)
+                };
+                let t = format!(
+                    "{{ {pre}/*@PRE#{k}@*/ for __e{k} in __it{k}: {src} /*@INV#{k}@*/ {{ /*@TOP#{k}@*/\nlet {pat} = __e{k};\n{inner}\n/*@BOT#{k}@*/ }} /*@POST#{k}@*/ }}",
+                    pre = pre, k = k, src = src, pat = pat, inner = inner
+                );
+                self.replace(e.span(), t);
             }
             Expr::While(w) => {
                 let c = self.r.render_expr(&w.cond);
                 let head = format!("while {}", c);
                 let k = self.r.fresh();
+                let sig = format!("while {}", norm(self.r.text(w.cond.span())));
+                self.r.loop_sigs.insert(k, sig);
                 let t = self.r.loop_wrap(k, head, &w.body);
                 self.replace(e.span(), t);
             }
             Expr::Loop(l) => {
                 let k = self.r.fresh();
+                self.r.loop_sigs.insert(k, "loop".to_string());
                 let t = self.r.loop_wrap(k, "loop".to_string(), &l.body);
                 self.replace(e.span(), t);
             }
@@ -1144,8 +1228,10 @@ fn line_of(src: &str, off: usize) -> usize {
     src[..off].matches('\n').count() + 1
 }
 
-fn renumber(text: &str) -> (String, usize, usize) {
-    // maps temporary marker ids (#id) to ordinals by order of first appearance of INV#id / CLS#id:BEGIN
+fn renumber(text: &str, sigs: &HashMap<usize, String>, baseline: &[String]) -> (String, usize, usize, Vec<String>) {
+    // loops are numbered in order of appearance of their INV marker; when the baseline signature list of the function is
+    // known, a loop whose signature matches the next unmatched baseline loop keeps that loop's ordinal, and loops that are
+    // new get ordinals above the baseline ones (so that woven invariants keep pointing at the loops they were written for)
     let mut loops: Vec<String> = vec![];
     let mut closures: Vec<String> = vec![];
     let mut i = 0;
@@ -1167,10 +1253,46 @@ fn renumber(text: &str) -> (String, usize, usize) {
         }
         i = e + 3;
     }
+    let cur_sigs: Vec<String> = loops
+        .iter()
+        .map(|id| sigs.get(&id.parse::<usize>().unwrap()).cloned().unwrap_or_default())
+        .collect();
+    let mut ordinals: Vec<usize> = vec![];
+    if baseline.is_empty() {
+        ordinals = (0..loops.len()).collect();
+    } else {
+        let mut ptr = 0usize;
+        let mut next_new = baseline.len();
+        for sg in &cur_sigs {
+            let mut found = None;
+            for j in ptr..baseline.len() {
+                if &baseline[j] == sg {
+                    found = Some(j);
+                    break;
+                }
+            }
+            match found {
+                Some(j) => {
+                    ordinals.push(j);
+                    ptr = j + 1;
+                }
+                None => {
+                    ordinals.push(next_new);
+                    next_new += 1;
+                }
+            }
+        }
+    }
     let mut out = text.to_string();
-    for (k, id) in loops.iter().enumerate() {
-        for pre in ["__it", "__e", "__s"] {
-            out = replace_word(&out, &format!("{}{}", pre, id), &format!("{}_{}", pre, k));
+    // two passes through a placeholder so that renamed ordinals cannot collide with not-yet-renamed ids
+    for (idx, id) in loops.iter().enumerate() {
+        let k = ordinals[idx];
+        for pre in ["__it", "__e", "__s", "__out", "__r", "__n", "__p"] {
+            out = replace_word(&out, &format!("{}{}", pre, id), &format!("{}_~{}", pre, k));
+        }
+        // map temporaries: __m<id>x<i>
+        for mi in 0..32 {
+            out = replace_word(&out, &format!("__m{}x{}", id, mi), &format!("__m_~{}_{}", k, mi));
         }
         for tag in ["PRE", "INV", "TOP", "BOT", "POST"] {
             out = out.replace(
@@ -1179,8 +1301,9 @@ fn renumber(text: &str) -> (String, usize, usize) {
             );
         }
     }
+    out = out.replace("_~", "_");
     // other temporaries: numbered per family by order of first appearance
-    for fam in ["__out", "__r", "__p", "__n", "__m", "__k", "__v", "__t", "__x"] {
+    for fam in ["__k", "__v", "__t", "__x"] {
         let mut seen: Vec<String> = vec![];
         let bytes = out.as_bytes();
         let mut i = 0;
@@ -1215,7 +1338,13 @@ fn renumber(text: &str) -> (String, usize, usize) {
             &format!("/*@CLS:{}:END@*/", k),
         );
     }
-    (out, loops.len(), closures.len())
+    // signature list indexed by ordinal (for the baseline)
+    let n_ord = ordinals.iter().map(|o| o + 1).max().unwrap_or(0);
+    let mut by_ord = vec![String::new(); n_ord];
+    for (idx, o) in ordinals.iter().enumerate() {
+        by_ord[*o] = cur_sigs[idx].clone();
+    }
+    (out, loops.len(), closures.len(), by_ord)
 }
 
 // -------------------------------------------------------------------- call-site obligations (C17)
@@ -1503,6 +1632,13 @@ fn main() {
             .map(|a| a.iter().map(|v| v.as_str().unwrap().to_string()).collect())
             .unwrap_or_default();
         let mut r = R {
+            loop_bodies: BTreeSet::new(),
+            pending_loop: None,
+            loop_sigs: HashMap::new(),
+            baseline_loops: it["baseline_loops"]
+                .as_array()
+                .map(|a| a.iter().map(|v| v.as_str().unwrap().to_string()).collect())
+                .unwrap_or_default(),
             bind_tail: None,
             tail_bound: false,
             src: text,
@@ -1706,7 +1842,7 @@ fn main() {
                 (s.span(), format!("pub {}", &text[a..e]), s.ident.to_string(), json!({}))
             }
         };
-        let (rendered, n_loops, n_closures) = renumber(&rendered);
+        let (rendered, n_loops, n_closures, loop_sigs) = renumber(&rendered, &r.loop_sigs, &r.baseline_loops);
         let (a, b) = rng(span);
         out_items.push(json!({
             "file": file,
@@ -1720,6 +1856,7 @@ fn main() {
             "text": rendered,
             "n_loops": n_loops,
             "n_closures": n_closures,
+            "loop_sigs": loop_sigs,
             "rules": r.rules.iter().cloned().collect::<Vec<_>>(),
             "extra": extra,
         }));
